@@ -466,14 +466,20 @@ def emit_fn(u, file, nm, block):
     if getattr(u, "vacuity", False):
         has_req = any(re.match(r"\s*requires\b", l) for l in spec_lines)
         if has_req:
-            has_ens = any(re.match(r"\s*ensures\b", l) for l in spec_lines)
-            ins = len(spec_lines)
-            for k, l in enumerate(spec_lines):
-                if re.match(r"\s*decreases\b", l):
-                    ins = k
-                    break
-            extra = "        false, // #vacuity" if has_ens else "    ensures false, // #vacuity"
-            spec_lines = spec_lines[:ins] + [extra] + spec_lines[ins:]
+            # keep requires (and decreases); replace every ensures clause by the single clause `false`
+            kept, tail, sect = [], [], None
+            for l in spec_lines:
+                if re.match(r"\s*requires\b", l):
+                    sect = "req"
+                elif re.match(r"\s*ensures\b", l):
+                    sect = "ens"
+                elif re.match(r"\s*decreases\b", l):
+                    sect = "dec"
+                if sect == "req":
+                    kept.append(l)
+                elif sect == "dec":
+                    tail.append(l)
+            spec_lines = kept + ["    ensures false, // #vacuity"] + tail
             u.vacuity_targets.append(nm)
         else:
             attrs = attrs + ["#[verifier::external_body]"]
